@@ -86,6 +86,61 @@ pub fn print_line(args: std::fmt::Arguments<'_>) {
     }
 }
 
+/// `std::thread::spawn` inside a simulated process: the new thread belongs to
+/// the same process (it dies with it, and its `exit` ends it), runs only when
+/// the scheduler picks it, and sleeps in simulated time.
+pub struct JoinHandle<T> {
+    tid: Option<usize>,
+    result: Arc<Mutex<Option<T>>>,
+}
+
+impl<T> JoinHandle<T> {
+    pub fn is_finished(&self) -> bool {
+        match (cur(), self.tid) {
+            (Some(c), Some(t)) => c.world.thread_is_finished(t),
+            _ => true,
+        }
+    }
+    pub fn join(self) -> std::thread::Result<T> {
+        if let (Some(c), Some(t)) = (cur(), self.tid) {
+            while !c.world.thread_is_finished(t) {
+                c.world.thread_yield(&c, None);
+            }
+        }
+        match self.result.lock().unwrap_or_else(|e| e.into_inner()).take() {
+            Some(v) => Ok(v),
+            None => Err(Box::new("simkit: thread did not finish normally")),
+        }
+    }
+}
+
+pub fn spawn<F, T>(f: F) -> JoinHandle<T>
+where
+    F: FnOnce() -> T + Send + 'static,
+    T: Send + 'static,
+{
+    let result: Arc<Mutex<Option<T>>> = Arc::new(Mutex::new(None));
+    let r2 = result.clone();
+    let body: Box<dyn FnOnce() + Send + 'static> = Box::new(move || {
+        let v = f();
+        *r2.lock().unwrap_or_else(|e| e.into_inner()) = Some(v);
+    });
+    match cur() {
+        Some(c) => {
+            let tid = c.world.spawn_thread_in_process(&c, body);
+            JoinHandle {
+                tid: Some(tid),
+                result,
+            }
+        }
+        None => {
+            // not inside a simulation: run it at once
+            body();
+            JoinHandle { tid: None, result }
+        }
+    }
+}
+
 fn stderr_broken() -> bool {
     crate::machine::installed() && crate::machine::with(|m| m.stderr_broken)
 }
